@@ -23,6 +23,7 @@
 (*   LayoutValid   the automaton only produces syntactically valid fields  *)
 (*   Refines       values rendered from the token list = reference list    *)
 (*                 (at Open this is ReadExact: code reader = Split)        *)
+(*   KeepExact     the value elements WITH their comment lines = SplitKeep *)
 (*   RoundTrip     writing back an untouched token list gives the layout   *)
 (*   TailOK        the abstract `tail` is the real tail of the token list  *)
 (*   EditResult    what the with-block writes re-reads (Split) as the list *)
@@ -243,6 +244,12 @@ AppendCmt1    == /\ AAppendCmt /\ toks' = AppCmt(toks)
                  /\ UNCHANGED <<contc, changed, reform>> /\ Step("cmt", <<>>, <<>>, 0)
 Reformat1     == /\ ~reform /\ AReformat /\ reform' = TRUE /\ changed' = TRUE
                  /\ UNCHANGED <<toks, contc>> /\ Step("reformat", <<>>, <<>>, 0)
+\* no_reformatting_when_finished(): back to the original formatting (the list stays marked as changed)
+NoReformat1   == /\ reform /\ AReformat /\ reform' = FALSE
+                 /\ UNCHANGED <<toks, contc, changed>> /\ Step("noreformat", <<>>, <<>>, 0)
+\* value_formatter(one_value_per_line_trailing_separator, force_reformat=force): reformat IF something is written
+VFmt1(force)  == /\ ~reform /\ AReformat /\ reform' = TRUE /\ changed' = (changed \/ force)
+                 /\ UNCHANGED <<toks, contc>> /\ Step(IF force THEN "vfmtf" ELSE "vfmt", <<>>, <<>>, 0)
 
 Close == /\ Emit /\ phase = "open"
          /\ phase' = "closed" /\ cres' = CRes /\ out' = COut
@@ -258,7 +265,8 @@ Next == \/ (phase = "grow" /\ ((\E t \in {SP, NL, CT, CM, SEP} \cup NextWords(la
               \/ \E v \in AppendVals : Append1(v)
               \/ \E v \in Targets : Remove1(v) \/ Replace1(v, <<NEWW>>)
               \/ \E i \in 1..Len(vals) : RefSet1(i, <<NEWW>>) \/ RefRemove1(i)
-              \/ (Extras /\ (AppendSep1(TRUE) \/ AppendSep1(FALSE) \/ AppendNl1 \/ AppendCmt1 \/ Reformat1)))
+              \/ (Extras /\ (AppendSep1(TRUE) \/ AppendSep1(FALSE) \/ AppendNl1 \/ AppendCmt1 \/ Reformat1
+                              \/ NoReformat1 \/ VFmt1(TRUE) \/ VFmt1(FALSE))))
         \/ Close
 Spec == Init /\ [][Next]_vars
 
@@ -267,6 +275,8 @@ IsOpen == phase = "open"
 LayoutValid == (phase = "grow" /\ Complete(lay)) => Valid(lay)
 Refines     == IsOpen => RenderVals(toks) = vals
 RoundTrip   == (IsOpen /\ steps = 0) => Written(toks) = lay
+\* ... and without discarding comments the code's value elements are the items from first to last word
+KeepExact   == (IsOpen /\ steps = 0) => ValEntries(toks) = SplitKeep(mode, lay)
 TailOK      == IsOpen => /\ (tail = "cmt") <=> (toks # <<>> /\ Tl(toks) = <<CM>>)
                          /\ (tail = "nl")  <=> (toks # <<>> /\ Tl(toks) = <<NL>>)
 \* Writing an EMPTY list is unspecified: normally the code refuses (CRes = "ValueError"); after
